@@ -2,6 +2,9 @@
 (* C36 - code generation is deterministic: the files generated for an input by a given interface are a function of
    (input, interface) only, whatever the history of the directory (fresh, repeated, after other inputs), the
    environment and the time.
+   A key may carry command line options; one invocation of mfront may treat several keys of the same interface and
+   options at once: what it generates for each of them must be what a solo run generates (the other inputs of the command
+   line are part of the "history").
    A directory is a map file -> digest.  Run(k) rewrites the files owned by the key k = (input, interface); the
    contents of everything else (except the registry src/targets.lst, C47) must not change.
    The specification keeps, for every key, the digests first observed (`canon`): every later run of the same key, in
